@@ -40,10 +40,10 @@ Definition index_cells (key : Z -> Z) (cells : list val) : M items :=
 (* ------------------------------------------------------------------ basis.py *)
 (* to_incremental(triangle): the argument itself if already incremental; else per (period, metadata)
    row: deepcopy of the first cell, _values_diff along the row *)
-Definition api_to_incremental (f : tagfns) (is_inc : bool) (cells : list val) : M (list val) :=
+Definition api_to_incremental (f : tagfns) (c : cfg) (is_inc : bool) (cells : list val) : M (list val) :=
   if is_inc then ret cells
   else gs <- group_cells (row_key f) cells ;;
-       rows <- mapM (fun g => to_incremental_row (snd g)) gs ;;
+       rows <- mapM (fun g => to_incremental_row c (snd g)) gs ;;
        ret (concat rows).
 (* to_cumulative(triangle): the argument itself if not incremental; else per row: deepcopy of the first
    cell's values, a deepcopy of that for the first output cell, the running total chained by _values_add *)
@@ -63,7 +63,7 @@ Definition api_summarize (f : tagfns) (c : cfg) (gcd_ok prem : bool) (cells : li
                       nv <- new_dict d ;; new_cell true (sum_tag f (fst g)) nv) gs.
 (* blend(triangles, method="mixture"): equal lengths, index every triangle, for every coordinate of the
    first one collect the matching cells (ValueError if one is missing) and blend_cells them *)
-Definition api_blend (f : tagfns) (tris : list (list val)) (picks : list nat) : M (list val) :=
+Definition api_blend (f : tagfns) (c : cfg) (tris : list (list val)) (picks : list nat) : M (list val) :=
   match tris with
   | [] => raise IndexError
   | t0 :: rest =>
@@ -77,7 +77,7 @@ Definition api_blend (f : tagfns) (tris : list (list val)) (picks : list nat) : 
                                              | Some x => ret x
                                              | None => raise ValueError
                                              end) ixs ;;
-                       blend_cells cs picks) ix0
+                       blend_cells c cs picks) ix0
            end
   end.
 
@@ -150,7 +150,7 @@ Definition api_aggregate (f : tagfns) (c : cfg) (is_inc prem : bool) (keep_eval 
                  kept <- foldM (fun acc x => t <- get_cell x ;;
                                             ret (if keep_eval (fst t) then acc ++ [x] else acc)) (snd g) [] ;;
                  api_aggregate_period f c prem kept) slices ;;
-  api_to_incremental f (negb is_inc) (concat agg).
+  api_to_incremental f c (negb is_inc) (concat agg).
 
 (* ------------------------------------------------------------------ every modelled entry point *)
 Inductive apicall :=
@@ -170,10 +170,10 @@ Inductive apicall :=
 Definition run_api (f : tagfns) (c : cfg) (a : apicall) : M res :=
   lift RVals
     match a with
-    | AToIncremental i cells => api_to_incremental f i cells
+    | AToIncremental i cells => api_to_incremental f c i cells
     | AToCumulative i cells => api_to_cumulative f c i cells
     | ASummarize g p cells => api_summarize f c g p cells
-    | ABlend tris picks => api_blend f tris picks
+    | ABlend tris picks => api_blend f c tris picks
     | ASelect cells ks => api_select cells ks
     | ADeriveFields cells defs => api_derive_fields cells defs
     | AReplace cells defs => api_replace cells defs
